@@ -25,6 +25,10 @@ Proof. exact rules_golden. Qed.
 Theorem C09_valid_parameters_documented : forall P d X, valid P d X ->
   2 * min_samples_leaf P <= min_samples_split P /\ min_samples_leaf P <= length X.
 Proof. exact (fun P d X V => conj (valid_contra P d X V) (valid_n_msl P d X V)). Qed.
+(* Kauri.predict routes the query rows in the number system in which fit chose the thresholds (float64): without this
+   the model's [predict] is undefined (None) and none of the predict theorems below would hold *)
+Theorem C09_predict_same_number_system_as_fit : r_predict_float64 kauri_fit_rules = true.
+Proof. exact rule_predict_number_system. Qed.
 Theorem C09_max_features_in_range : forall mf d, 1 <= d -> 1 <= eff_max_features mf d <= d.
 Proof. exact rule_max_features. Qed.
 
@@ -156,6 +160,7 @@ Qed.
 
 Print Assumptions C09_regenerated_rules_are_documented.
 Print Assumptions C09_valid_parameters_documented.
+Print Assumptions C09_predict_same_number_system_as_fit.
 Print Assumptions C09_max_features_in_range.
 Print Assumptions C09_fit_terminates.
 Print Assumptions C09_fit_stops.
